@@ -290,6 +290,11 @@ func VH_Revisions(a []int) {
 		squat.Name = name
 		squat.UID = "uid-rev-squatter"
 		squat.Labels = map[string]string{"app": "somebody-else"}
+		if sym.Pick("collision.hash", 2) == 1 {
+			// a true hash collision: different data, same hash (and so the same hash label)
+			squat.Labels["controller.kubernetes.io/hash"] = hashControllerRevision(probe, &cc)
+			sym.Cover("colliding revision carries the same hash label")
+		}
 		squat.OwnerReferences = nil
 		w.apiRevs = append(w.apiRevs, squat)
 		collide = true
